@@ -727,8 +727,17 @@ func (g *goProg) step(a *AbsState, in ssa.Instruction, check bool) []*AbsState {
 			}
 			return one
 		}
+		if _, isStruct := x.Val.Type().Underlying().(*types.Struct); isStruct {
+			g.storeStruct(a, x)
+			if check && g.hooks.onStore != nil {
+				g.hooks.onStore(g, a, x)
+			}
+			return one
+		}
 		if fk := g.fieldCell(x.Addr); fk != "" {
-			g.killField(a, x.Addr, fk)
+			if !localBase(x.Addr) {
+				g.killField(a, x.Addr, fk)
+			}
 			switch {
 			case isSliceType(x.Val.Type()):
 				sv := g.sliceOf(a, x.Val)
@@ -1818,4 +1827,105 @@ func pureCallee(f *ssa.Function) bool {
 		pureMemo[f] = 0
 	}
 	return ok
+}
+
+// localBase: the address is a field (chain) of a local variable that does not escape: a store through it cannot
+// alias a field reached through a parameter.
+func localBase(addr ssa.Value) bool {
+	for {
+		switch x := addr.(type) {
+		case *ssa.FieldAddr:
+			addr = x.X
+		case *ssa.Alloc:
+			return !x.Heap
+		default:
+			return false
+		}
+	}
+}
+
+// baseKeyOf: the key prefix under which the field cells of the object that ptr points to are kept.
+func (g *goProg) baseKeyOf(ptr ssa.Value) string {
+	switch b := ptr.(type) {
+	case *ssa.Parameter:
+		if pb, ok := g.paramBase[b.Name()]; ok {
+			return pb
+		}
+		return g.ctx + "p:" + b.Name()
+	case *ssa.UnOp:
+		if al, isAl := b.X.(*ssa.Alloc); isAl && b.Op == token.MUL {
+			if sts := storesTo(al); len(sts) == 1 {
+				if prm, isP := sts[0].Val.(*ssa.Parameter); isP {
+					if pb, ok := g.paramBase[prm.Name()]; ok {
+						return pb
+					}
+					return g.ctx + "p:" + prm.Name()
+				}
+			}
+		}
+	}
+	return g.k(ptr)
+}
+
+// storeStruct: *dst = v for a struct value. When v is the content of a local composite literal (a load of a
+// non-escaping Alloc) the field cells of the literal become the field cells of *dst, fields the literal does not
+// mention are zero; otherwise the cells of *dst are forgotten.
+func (g *goProg) storeStruct(a *AbsState, st *ssa.Store) {
+	if _, isFA := st.Addr.(*ssa.FieldAddr); isFA {
+		// a struct-valued field: forget what is known below it
+		pfx := g.fieldCell(st.Addr)
+		for k := range a.vals {
+			if pfx != "" && strings.HasPrefix(k, pfx+".") {
+				delete(a.vals, k)
+			}
+		}
+		return
+	}
+	dstBase := g.baseKeyOf(st.Addr)
+	tn := typeName(st.Addr.Type())
+	pfx := "fld:" + dstBase + ":" + tn + "."
+	for k := range a.vals {
+		if strings.HasPrefix(k, pfx) {
+			delete(a.vals, k)
+		}
+	}
+	stt, _ := st.Val.Type().Underlying().(*types.Struct)
+	if stt == nil {
+		return
+	}
+	srcPfx := ""
+	if _, isZero := st.Val.(*ssa.Const); isZero {
+		// the zero value (the builder initialises a composite literal in place: zero, then field stores)
+		srcPfx = "fld:\x00none:"
+	} else {
+		ld, ok := st.Val.(*ssa.UnOp)
+		if !ok || ld.Op != token.MUL {
+			return
+		}
+		al, ok := ld.X.(*ssa.Alloc)
+		if !ok || al.Heap {
+			return
+		}
+		srcPfx = "fld:" + g.k(al) + ":" + tn + "."
+	}
+	for i := 0; i < stt.NumFields(); i++ {
+		f := stt.Field(i)
+		sk, dk := srcPfx+f.Name(), pfx+f.Name()
+		switch {
+		case isSliceType(f.Type()):
+			if l, has := a.vals[sk+".len"]; has {
+				a.vals[dk+".len"], a.vals[dk+".cap"], a.vals[dk+".off"] = l, a.vals[sk+".cap"], a.vals[sk+".off"]
+			} else {
+				a.vals[dk+".len"], a.vals[dk+".cap"], a.vals[dk+".off"] = linI(0), linI(0), linI(0)
+			}
+		default:
+			if _, _, isI := isIntType(f.Type()); isI {
+				if v, has := a.vals[sk]; has {
+					a.vals[dk] = v
+				} else {
+					a.vals[dk] = linI(0)
+				}
+			}
+		}
+	}
 }
